@@ -454,7 +454,7 @@ thread_join_impl(const int s, const int k)
              * commit - not by the client while the source body is still running (frames
              * committed after the consumers' final flush would be left in the rings) */
             VASSERT(!(V_(s).source.is_running && (V_(s).filter.is_stopping || V_(s).sink.is_stopping)),
-                    "[C07.stop-flags-only-after-last-commit,C04.stop-flags-only-after-last-commit] the filter/sink stop flags were raised while the source body was still running");
+                    "[C07.stop-flags-only-after-last-commit,C04.stop-flags-only-after-last-commit,C10.stop-flags-only-after-last-commit] the filter/sink stop flags were raised while the source body was still running");
             V_(s).source.is_running = 0;
             V_(s).source.is_stopping = 0;
             V_(s).filter.is_stopping = 1;
